@@ -19,6 +19,7 @@ type RVal struct {
 	V       Value
 	Addr    Ptr
 	HasAddr bool
+	RO      bool // obtained through an unexported struct field: neither settable nor interfaceable
 }
 
 func (m *Machine) rtypeMarker() types.Type {
@@ -206,7 +207,149 @@ func init() {
 			c.m.reflectPanic(c, "reflect: call of reflect.Value.CanInterface on zero Value")
 			return
 		}
-		c.ret(smt.True)
+		c.ret(smt.Bool(!rvOf(c.args[0]).RO))
+	})
+	add("(reflect.Value).CanSet", func(c *stubCtx) {
+		r := rvOf(c.args[0])
+		c.ret(smt.Bool(r != nil && r.HasAddr && !r.RO))
+	})
+	add("(reflect.Value).CanAddr", func(c *stubCtx) {
+		r := rvOf(c.args[0])
+		c.ret(smt.Bool(r != nil && r.HasAddr))
+	})
+	add("(reflect.Value).NumField", func(c *stubCtx) {
+		r := rvOf(c.args[0])
+		if r == nil {
+			c.m.reflectPanic(c, "reflect: call of reflect.Value.NumField on zero Value")
+			return
+		}
+		st, ok := r.T.Underlying().(*types.Struct)
+		if !ok {
+			c.m.reflectPanic(c, "reflect: call of reflect.Value.NumField on "+kindOf(r.T).String()+" Value")
+			return
+		}
+		c.ret(smt.BV(64, uint64(st.NumFields())))
+	})
+	add("(reflect.Value).Field", func(c *stubCtx) {
+		r := rvOf(c.args[0])
+		if r == nil {
+			c.m.reflectPanic(c, "reflect: call of reflect.Value.Field on zero Value")
+			return
+		}
+		st, ok := r.T.Underlying().(*types.Struct)
+		if !ok {
+			c.m.reflectPanic(c, "reflect: call of reflect.Value.Field on "+kindOf(r.T).String()+" Value")
+			return
+		}
+		it := c.args[1].(*smt.Term)
+		if !it.IsConst() {
+			panic(unsupported("reflect.Value.Field with symbolic index"))
+		}
+		i := int(it.SInt())
+		if i < 0 || i >= st.NumFields() {
+			c.m.reflectPanic(c, "reflect: Field index out of range")
+			return
+		}
+		fld := st.Field(i)
+		ro := r.RO || !fld.Exported()
+		if r.HasAddr {
+			sc, isC := r.Addr.C.E[r.Addr.I].(*Cells)
+			if !isC {
+				panic(unsupported("reflect.Value.Field on non-struct cell"))
+			}
+			c.ret(mkRV(&RVal{T: fld.Type(), Addr: Ptr{sc, i}, HasAddr: true, RO: ro}))
+			return
+		}
+		sc, isC := r.V.(*Cells)
+		if !isC {
+			panic(unsupported("reflect.Value.Field on non-struct value"))
+		}
+		c.ret(mkRV(&RVal{T: fld.Type(), V: c.m.copyVal(sc.E[i]), RO: ro}))
+	})
+	add("(reflect.Value).Index", func(c *stubCtx) {
+		r := rvOf(c.args[0])
+		if r == nil {
+			c.m.reflectPanic(c, "reflect: call of reflect.Value.Index on zero Value")
+			return
+		}
+		it := c.args[1].(*smt.Term)
+		if !it.IsConst() {
+			panic(unsupported("reflect.Value.Index with symbolic index"))
+		}
+		i := int(it.SInt())
+		switch u := r.T.Underlying().(type) {
+		case *types.Slice:
+			sl, isS := c.m.rvGet(r).(Slice)
+			if !isS {
+				panic(unsupported("reflect.Value.Index on an abstract slice"))
+			}
+			if i < 0 || i >= sl.Len {
+				c.m.reflectPanic(c, "reflect: slice index out of range")
+				return
+			}
+			// elements of a slice are always addressable
+			c.ret(mkRV(&RVal{T: u.Elem(), Addr: Ptr{sl.C, sl.Off + i}, HasAddr: true, RO: r.RO}))
+		case *types.Array:
+			if i < 0 || i >= int(u.Len()) {
+				c.m.reflectPanic(c, "reflect: array index out of range")
+				return
+			}
+			if r.HasAddr {
+				ac := r.Addr.C.E[r.Addr.I].(*Cells)
+				c.ret(mkRV(&RVal{T: u.Elem(), Addr: Ptr{ac, i}, HasAddr: true, RO: r.RO}))
+				return
+			}
+			c.ret(mkRV(&RVal{T: u.Elem(), V: c.m.copyVal(r.V.(*Cells).E[i]), RO: r.RO}))
+		default:
+			panic(unsupported("reflect.Value.Index on " + kindOf(r.T).String()))
+		}
+	})
+	add("(reflect.Value).SetBytes", func(c *stubCtx) {
+		r := rvOf(c.args[0])
+		if r == nil {
+			c.m.reflectPanic(c, "reflect: call of reflect.Value.SetBytes on zero Value")
+			return
+		}
+		if !r.HasAddr || r.RO {
+			c.m.reflectPanic(c, "reflect: reflect.Value.SetBytes using unaddressable value")
+			return
+		}
+		sl, ok := r.T.Underlying().(*types.Slice)
+		if !ok || kindOf(sl.Elem()) != reflect.Uint8 {
+			c.m.reflectPanic(c, "reflect.Value.SetBytes of non-byte slice")
+			return
+		}
+		c.m.storeCell(r.Addr.C, r.Addr.I, c.args[1])
+		c.ret(nil)
+	})
+	add("reflect.MakeSlice", func(c *stubCtx) {
+		t, ok := rtypeOf(c.args[0])
+		if !ok {
+			c.m.reflectPanic(c, "reflect.MakeSlice of nil type")
+			return
+		}
+		st, isS := t.Underlying().(*types.Slice)
+		if !isS {
+			c.m.reflectPanic(c, "reflect.MakeSlice of non-slice type")
+			return
+		}
+		lt, ct := c.args[1].(*smt.Term), c.args[2].(*smt.Term)
+		if !lt.IsConst() || !ct.IsConst() {
+			panic(unsupported("reflect.MakeSlice with symbolic size"))
+		}
+		n, cp := int(lt.SInt()), int(ct.SInt())
+		if n < 0 || cp < n {
+			c.m.reflectPanic(c, "reflect.MakeSlice: negative len or len > cap")
+			return
+		}
+		if cp > 1<<16 {
+			panic(unsupported("reflect.MakeSlice too large"))
+		}
+		cells := c.m.newCells(cp)
+		for i := range cells.E {
+			cells.E[i] = c.m.zero(st.Elem())
+		}
+		c.ret(mkRV(&RVal{T: t, V: Slice{C: cells, Len: n, Cap: cp}}))
 	})
 	add("(reflect.Value).Type", func(c *stubCtx) {
 		r := rvOf(c.args[0])
@@ -230,14 +373,14 @@ func init() {
 				c.ret(c.m.zeroRV())
 				return
 			}
-			c.ret(mkRV(&RVal{T: u.Elem(), Addr: p, HasAddr: true}))
+			c.ret(mkRV(&RVal{T: u.Elem(), Addr: p, HasAddr: true, RO: r.RO}))
 		case *types.Interface:
 			ifc := v.(Iface)
 			if ifc.T == nil {
 				c.ret(c.m.zeroRV())
 				return
 			}
-			c.ret(mkRV(&RVal{T: ifc.T, V: ifc.V}))
+			c.ret(mkRV(&RVal{T: ifc.T, V: ifc.V, RO: r.RO}))
 		default:
 			c.m.reflectPanic(c, "reflect: call of reflect.Value.Elem on "+kindOf(r.T).String()+" Value")
 		}
@@ -246,6 +389,10 @@ func init() {
 		r := rvOf(c.args[0])
 		if r == nil {
 			c.m.reflectPanic(c, "reflect: call of reflect.Value.Interface on zero Value")
+			return
+		}
+		if r.RO {
+			c.m.reflectPanic(c, "reflect.Value.Interface: cannot return value obtained from unexported field or method")
 			return
 		}
 		v := c.m.rvGet(r)
@@ -266,6 +413,21 @@ func init() {
 			c.ret(smt.Bool(isNilValue(c.m.rvGet(r))))
 		default:
 			c.m.reflectPanic(c, "reflect: call of reflect.Value.IsNil on "+kindOf(r.T).String()+" Value")
+		}
+	})
+	add("(reflect.Value).IsZero", func(c *stubCtx) {
+		r := rvOf(c.args[0])
+		if r == nil {
+			c.m.reflectPanic(c, "reflect: call of reflect.Value.IsZero on zero Value")
+			return
+		}
+		// a value is zero iff it equals the zero value of its type (floats: +0 only; -0 is not handled apart: equality on bits)
+		v := c.m.rvGet(r)
+		switch kindOf(r.T) {
+		case reflect.Ptr, reflect.Map, reflect.Slice, reflect.Func, reflect.Interface, reflect.Chan, reflect.UnsafePointer:
+			c.ret(smt.Bool(isNilValue(v)))
+		default:
+			c.ret(c.m.equal(v, c.m.zero(r.T), c.ins))
 		}
 	})
 	add("(reflect.Value).Pointer", func(c *stubCtx) {
@@ -547,7 +709,7 @@ func init() {
 			c.m.reflectPanic(c, "reflect: call of reflect.Value.Set on zero Value")
 			return
 		}
-		if !r.HasAddr {
+		if !r.HasAddr || r.RO {
 			c.m.reflectPanic(c, "reflect: reflect.Value.Set using unaddressable value")
 			return
 		}
